@@ -956,6 +956,8 @@ func Build(config string) core.BuildFunc {
 		return buildSweepSECS1()
 	case "pure":
 		return buildPure()
+	case "reopen":
+		return buildReopen()
 	default:
 		return buildSeeded()
 	}
